@@ -288,6 +288,8 @@ def run_edge(case):
     expect = [GeoCoords(*p).toENUCoords(used) for p in pts]
     enu = [[o.position.getX(), o.position.getY(), o.position.getZ()] for o in tr]
     srid1 = tr.getSRID()
+    if base is not None:                        # the caller goes on using its base object (batch loops do): the track must have recorded a snapshot, not the object
+        base.setX(base.getX() + 7.5); base.setY(-base.getY()); base.setZ(base.getZ() + 100.0)
     rec = tr.base
     reb = None
     if case.get('base2'):                       # re-base the local track on a second base (ENU -> ENU), the recorded base must follow
@@ -348,7 +350,7 @@ def oracle_edge(case, obs):
 S_EDGE = Stream(
     name='edge', budget={'quick': 400, 'thorough': 20000},
     rule=('oracle only: positions and bases with longitude exactly 180, -180, 0, +-90, latitudes +-89.9 and 0, heights at both limits (50%); Lambert-93 forward / inverse inside metropolitan France (25%); '
-          'whole tracks of 1..5 geographic positions converted to the local frame with an explicit base or the default one, re-based on a second base (60% of them) and back (25%): pointwise conversion, recorded base after each step, unchanged count and timestamps'),
+          'whole tracks of 1..5 geographic positions converted to the local frame with an explicit base or the default one, re-based on a second base (60% of them) and back (25%): pointwise conversion, recorded base after each step (the base object of the caller is modified in place after the call: the track must hold its own copy), unchanged count and timestamps'),
     imports='From Coq Require Import List.', case_type='unit', check_def='Definition ok (c : unit) : bool := true.',
     generate=gen_edge, run_impl=run_edge, coq_case=lambda c, o: None, oracle=oracle_edge, klass=lambda c, o: c['kind'])
 
